@@ -93,6 +93,7 @@ impl AssetCategorizer {
                 utxos_with_ada_overhead.push((current_utxo_index.clone(), ada_overhead));
             }
 
+            let mut has_assets = false;
             if let Some(assests) = &utxo.output.amount.multiasset {
                 for policy in &assests.0 {
                     let mut current_policy_index = PolicyIndex(policy_count.clone());
@@ -105,6 +106,7 @@ impl AssetCategorizer {
                     }
 
                     for asset in &policy.1 .0 {
+                        has_assets = true;
                         let mut current_asset_index = AssetIndex(asset_count.clone());
                         let plane_id = PlaneAssetId(current_policy_index.clone(), asset.0.clone());
 
@@ -153,7 +155,9 @@ impl AssetCategorizer {
                         }
                     }
                 }
-            } else {
+            }
+            //a multiasset without any asset in it is a pure ada utxo as well
+            if !has_assets {
                 free_ada_utxos.push((current_utxo_index.clone(), utxo.output.amount.coin.clone()));
             }
             current_utxo_num += 1;
